@@ -93,6 +93,6 @@ func readBag(s *slip.Scope, obj *flavors.Instance, value, path slip.Object, dept
 	if x == nil {
 		obj.Any = v
 	} else {
-		setAt(obj, x, v)
+		setAt(s, obj, x, v, depth)
 	}
 }
